@@ -283,7 +283,7 @@ Definition seq_to_list (s : seqin) (start : option nat) (e : option nat) : lres 
   let l := elems s in
   let st := match start with Some n => n | None => 0%nat end in
   if ((st =? 0) && (length l =? 0))%nat && (match e with None => true | _ => false end) then LOk []
-  else if (length l <=? st)%nat then LErr EError
+  else if (length l <? st)%nat then LErr EError          (* start = length: the empty range *)
   else match e with
        | None => LOk (skipn st l)
        | Some n => if (length l <? n)%nat then LErr EError else if (n <? st)%nat then LErr EError else LOk (slice st n l)
@@ -337,10 +337,10 @@ Definition m_subseq (c : call) : res :=
 Definition replace_check (start : option nat) (e : option nat) (size : nat) : option nat (* None: error *) :=
   let st := match start with Some n => n | None => 0%nat end in
   if ((size =? 0) && (st =? 0))%nat && (match e with None => true | _ => false end) then Some 0%nat
-  else if (size <=? st)%nat then None
+  else if (size <? st)%nat then None
   else match e with
        | None => Some size
-       | Some n => if (size <=? n)%nat then None else if (n <? st)%nat then None else Some n
+       | Some n => if (size <? n)%nat then None else if (n <? st)%nat then None else Some n
        end.
 Definition m_replace (c : call) : res :=
   match seq_to_list (c_seq2 c) (c_start2 c) (c_end2 c) with
